@@ -117,7 +117,7 @@ pub struct KnownFinding {
     pub commit: Option<String>,
 }
 
-#[derive(Default, Clone, Debug)]
+#[derive(Default, Clone, Debug, Serialize, Deserialize)]
 pub struct PartStats {
     pub name: String,
     pub rule: String,
@@ -154,6 +154,10 @@ pub struct Ctx {
     start: Instant,
     /// Maximum number of distinct violations reported per part before the part stops.
     pub max_violations: usize,
+    /// `--parts-out <file>`: write this run's parts to the file instead of the evidence (a second binary merges them)
+    pub parts_out: Option<String>,
+    /// `--parts-in <file>`: parts written by another binary of the same check, merged into the evidence
+    pub parts_in: Option<String>,
 }
 
 thread_local! {
@@ -249,12 +253,16 @@ impl Ctx {
             })
             .unwrap_or(0);
         let mut replay = None;
+        let mut parts_out = None;
+        let mut parts_in = None;
         let mut it = args.iter();
         while let Some(a) = it.next() {
             match a.as_str() {
                 "quick" | "--quick" => tier = Tier::Quick,
                 "thorough" | "--thorough" => tier = Tier::Thorough,
                 "--seed" => seed = it.next().and_then(|s| s.parse().ok()).unwrap_or(seed),
+                "--parts-out" => parts_out = it.next().cloned(),
+                "--parts-in" => parts_in = it.next().cloned(),
                 "--replay" => {
                     let p = it.next().expect("--replay <file>");
                     let txt = std::fs::read_to_string(p).expect("read replay file");
@@ -278,6 +286,8 @@ impl Ctx {
             level: "exploration",
             start: Instant::now(),
             max_violations: 3,
+            parts_out,
+            parts_in,
         }
     }
 
@@ -660,7 +670,41 @@ impl Ctx {
     }
 
     /// Writes evidence and returns the process exit code.
-    pub fn finish(self) -> i32 {
+    pub fn finish(mut self) -> i32 {
+        if let Some(f) = self.parts_in.clone() {
+            // parts of the same check produced by another binary (different cargo features)
+            if let Ok(txt) = std::fs::read_to_string(&f) {
+                if let Ok(v) = serde_json::from_str::<Value>(&txt) {
+                    if let Ok(parts) = serde_json::from_value::<Vec<PartStats>>(v["parts"].clone()) {
+                        self.parts.extend(parts);
+                    }
+                    for w in v["warnings"].as_array().cloned().unwrap_or_default() {
+                        self.warnings.push(w.as_str().unwrap_or("").to_string());
+                    }
+                    for a in v["assumptions"].as_array().cloned().unwrap_or_default() {
+                        self.assumptions.push(a.as_str().unwrap_or("").to_string());
+                    }
+                    for x in v["violations"].as_array().cloned().unwrap_or_default() {
+                        self.violations.push((x[0].as_str().unwrap_or("").to_string(), PathBuf::from(x[1].as_str().unwrap_or("")), x[2].as_str().unwrap_or("").to_string()));
+                    }
+                }
+            } else {
+                self.warn(format!("parts file {f} of the companion binary is missing"));
+            }
+        }
+        if let Some(f) = self.parts_out.clone() {
+            for (sig, (n, example)) in &self.known_hits {
+                let what = self.known.iter().find(|k| &k.signature == sig).map(|k| k.what.clone()).unwrap_or_default();
+                println!("KNOWN-FINDING: property={} {} [signature {}; {} generated cases hit it; e.g. {}]", self.id, what, sig, n, first_line(example, 300));
+            }
+            let v = json!({"parts": self.parts, "warnings": self.warnings, "assumptions": self.assumptions,
+                "violations": self.violations.iter().map(|(a, b, c)| json!([a, b.display().to_string(), c])).collect::<Vec<_>>()});
+            if std::fs::write(&f, v.to_string()).is_err() {
+                eprintln!("cannot write {f}");
+                return 2;
+            }
+            return if self.violations.is_empty() { 0 } else { 1 };
+        }
         for (sig, (n, example)) in &self.known_hits {
             let what = self.known.iter().find(|k| &k.signature == sig).map(|k| k.what.clone()).unwrap_or_default();
             println!("KNOWN-FINDING: property={} {} [signature {}; {} generated cases hit it; e.g. {}]", self.id, what, sig, n, first_line(example, 300));
